@@ -57,7 +57,9 @@ Proof.
   destruct (on_iface_seen_all now idx s) as [_ [_ [O3 [O4 O5]]]].
   assert (match Ln2i s name with Some old => if N.eqb old idx then s_i2n s else remove N.eqb (s_i2n s) old | None => s_i2n s end = s_i2n s) as X.
   { destruct W2 as [W|W]; rewrite W; auto. rewrite N.eqb_refl. auto. }
-  destruct state; try congruence; cbn; rewrite ?O3, ?O4, ?O5, X; repeat split; intros;
+  assert (match Ln2i s name with Some old => if N.eqb old idx then s_istate s else if c_fixC cfg then remove N.eqb (s_istate s) old else s_istate s | None => s_istate s end = s_istate s) as Y.
+  { destruct W2 as [W|W]; rewrite W; auto. rewrite N.eqb_refl. auto. }
+  destruct state; try congruence; cbn; rewrite ?O3, ?O4, ?O5, X, Y; repeat split; intros;
     first [apply (lookup_set_eq String.eqb string_eqb_spec) | apply (lookup_set_eq N.eqb N_eqb_spec)
           | apply (lookup_set_neq String.eqb string_eqb_spec); congruence | apply (lookup_set_neq N.eqb N_eqb_spec); congruence].
 Qed.
